@@ -143,6 +143,7 @@ def run(ctx, only_solver=False):
 
 
 def _solver_rules(ctx, p, I, F):
+    ctx.rule('TABLES-CORR', 'correction strings decode to {0,1,2}, cover the largest index their readers can form, and the k-th symbol is read for the k-th period')
     ctx.rule('FLOW-SOLVER', 'solver structure: full series in the last Newton step; midnight guard falls back to the precise solver; two-sided precise search')
     # ---- solver structure (syntax)
     def calls_in(fnq, callee):
@@ -218,6 +219,37 @@ def _solver_rules(ctx, p, I, F):
                 for k in (fast, precise, 'dtt'):
                     I.overrides.pop('ShouXingUtil::' + k, None)
         return f
+    # readers of the two correction strings: between the end of the fitted table and 1960 the k-th symbol corrects the k-th term / lunation
+    # counted from that epoch (one symbol per period).  Evaluated with the low-precision solver stubbed by 0, so the result IS the correction read.
+    def corr_reader(fnname, low, kbname, sname, pc, period):
+        def f():
+            kb = py(I.static(kbname, F))
+            sym = py(I.static(sname, F))
+            f2 = kb[-1] - pc
+            f3 = 2436935.0
+            I.overrides['ShouXingUtil::' + low] = lambda I_, r, a: 0.0
+            try:
+                n = int((f3 - f2) / period)
+                bad = None
+                cnt = 0
+                for k in range(0, n):
+                    want = {'0': 0.0, '1': 1.0, '2': -1.0}[sym[k]]
+                    for frac in (0.02, 0.25, 0.5, 0.75, 0.98):
+                        jd = f2 + period * (k + frac)
+                        if jd >= f3:
+                            continue
+                        got = I.call('ShouXingUtil::' + fnname, [jd - 2451545.0])
+                        cnt += 1
+                        if got != want and bad is None:
+                            bad = '%s reads correction %+d for a seed %.2f periods into period %d after the end of %s, symbol %d of %s says %+d: the k-th symbol corrects the k-th period' % (fnname, got, frac, k, kbname, k, sname, want)
+                f.n = cnt
+                return bad
+            finally:
+                I.overrides.pop('ShouXingUtil::' + low, None)
+        return f
+    ctx.guard('TABLES-CORR', 'TABLES:SB:reader', corr_reader('calc_shuo', 'shuo_low', 'SHUO_KB', 'SB', 14.0, 29.5306), 16000, {'fn': fn_site(p, 'ShouXingUtil::calc_shuo')})
+    ctx.guard('TABLES-CORR', 'TABLES:QB:reader', corr_reader('calc_qi', 'qi_low', 'QI_KB', 'QB', 7.0, 365.2422 / 24.0), 8000, {'fn': fn_site(p, 'ShouXingUtil::calc_qi')})
+
     ctx.guard('FLOW-SOLVER', 'FLOW:qi_high:midnight-guard', guard('qi_high', 'sa_lon_t2', 'sa_lon_t', 1200), 18, {'fn': fn_site(p, 'ShouXingUtil::qi_high')})
     ctx.guard('FLOW-SOLVER', 'FLOW:shuo_high:midnight-guard', guard('shuo_high', 'm_sa_lon_t2', 'm_sa_lon_t', 1800), 18, {'fn': fn_site(p, 'ShouXingUtil::shuo_high')})
 
